@@ -146,6 +146,7 @@ TQuiesce ==
            /\ (s.ever /\ Rec.allclosed) => (Len(s.discs) = 1 /\ ~s.inNsp /\ ~s.inConn /\ s.rooms = {} /\ ~s.connected)
            /\ s.rejected => (~s.inNsp /\ ~s.inConn /\ s.rooms = {} /\ ~s.ever /\ s.conn = 0)
     /\ Rec.nspSockets = 0 /\ Rec.adapterSockets = 0 /\ Rec.eioKnown = 0 /\ Rec.lateEvents = 0
+    /\ Rec.adapterIndex = 0      \* no key and no membership left in either index of any adapter
     /\ UNCHANGED <<S, cfg, inflight, mwev>>
 \* the same for scenarios that keep some sockets alive
 TResidue ==
